@@ -1,10 +1,17 @@
 (* The single entry point of the extracted model: function name + wire value -> wire value.
    Definitions only. *)
-Require Import Lib.Base Gen.Gen_parser Model.Fold.
+Require Import Lib.Base Lib.Chain Gen.Gen_parser Model.Fold Model.Text.
 From Coq Require Import String.
 Local Open Scope string_scope.
 
 Definition is (f : list N) (name : string) : bool := str_eqb f (s2l name).
+
+Definition jxres (x : xres) : jv :=
+  match x with
+  | XDone c => jtag "closed" [jnat (List.length c)]
+  | XCounter w => jtag "counterexample" [JS w]
+  | XFuel => jtag "fuel" []
+  end.
 
 Definition dispatch (f : list N) (a : jv) : jv :=
   if is f "foldline" then
@@ -15,4 +22,25 @@ Definition dispatch (f : list N) (a : jv) : jv :=
     match a with JS l => JS (rfc_unfold l) | _ => junsupported end
   else if is f "phys_lines" then
     match a with JS l => jstrs (phys_lines l) | _ => junsupported end
+  else if is f "escape_char" then
+    match a with JS l => JS (escape_char l) | _ => junsupported end
+  else if is f "unescape_char" then
+    match a with JS l => JS (unescape_char l) | _ => junsupported end
+  else if is f "escape_string" then
+    match a with JS l => JS (escape_string l) | _ => junsupported end
+  else if is f "unescape_string" then
+    match a with JS l => JS (unescape_string l) | _ => junsupported end
+  else if is f "norm" then
+    match a with JS l => JS (norm l) | _ => junsupported end
+  else if is f "text_via_line" then
+    match a with JS l => JS (text_via_line l) | _ => junsupported end
+  else if is f "categories_via_line" then
+    match a with JL l => match jv_strs l with Some items => jstrs (categories_via_line items) | None => junsupported end
+    | _ => junsupported end
+  else if is f "direct_safe" then
+    match a with JS l => jbool (direct_safe l) | _ => junsupported end
+  else if is f "line_safe" then
+    match a with JS l => jbool (line_safe l) | _ => junsupported end
+  else if is f "c07_explore" then
+    JL [jxres direct_explore; jxres line_explore; jxres direct_explore_noguard; jxres line_explore_noguard]
   else jtag "nofunc" [].
